@@ -19,7 +19,7 @@ RULE = ("(grammar | PDA) x (Regex | DFA | NFA | eps-NFA) pairs: partial DFAs, NF
 ASSUMPTIONS = ["comparison bounded to words of length <= %d" % N]
 TIERS = {
     "quick": {"workers": 4, "random": 2500},
-    "thorough": {"workers": 16, "random": 5000, "pytest": True, "hard_timeout": 3300},
+    "thorough": {"workers": 16, "random": 20000, "pytest": True, "hard_timeout": 3300},
 }
 MIN = {"quick": {"C11.CFG.intersection": 1000, "C11.PDA.intersection": 600},
        "thorough": {"C11.CFG.intersection": 20000, "C11.PDA.intersection": 10000}}
